@@ -58,11 +58,11 @@ def run(ctx):
     from . import common as _common
     _common.READ_LOOPS[fi.qualname] = (fi, main)
     # (an exit that returns no knee at all satisfies every clause of this property, whatever its condition)
-    _common.account_exits(fi, lambda r: isinstance(r.value, (ast.List, ast.Tuple)) and not r.value.elts)
+    _common.account_exits(fi, lambda r: isinstance(_common.returned_expr(fi, r), (ast.List, ast.Tuple)) and not _common.returned_expr(fi, r).elts)
 
     def _ascending_keys(r) -> bool:
         # the selection is handed over as the ascending list of its x values: np.array(list(sorted(D.keys()))) / sorted(D) - no key, no reverse
-        e = r.value
+        e = _common.returned_expr(fi, r)
         while isinstance(e, ast.Call) and ast.unparse(e.func) in ("np.array", "np.asarray", "numpy.array", "list", "tuple") and len(e.args) == 1 and not e.keywords:
             e = e.args[0]
         if isinstance(e, ast.Call) and isinstance(e.func, ast.Name) and e.func.id == "sorted" and len(e.args) == 1 and not e.keywords:
